@@ -409,7 +409,10 @@ fn spawn_worker(id: &str, tier: &str, seed: u64, start: u64, stride: u64, end: u
                 _ => {},
             }
         }
+        let pid = child.id();
         let status = child.wait().ok();
+        // a worker that was killed or crashed cannot remove its private sandbox itself
+        let _ = std::fs::remove_dir_all(format!("/dev/shm/rvsim-{}", pid));
         let err = errt.join().unwrap_or_default();
         let end_state = end_state.unwrap_or(WorkerEnd::Crashed { code: status.and_then(|s| s.code()), stderr: err });
         (viols, end_state)
@@ -455,8 +458,10 @@ fn locate_hang(id: &str, tier: &str, seed: u64, run: u64) -> (Vec<serde_json::Va
             Err(_) => break,
         }
     }
+    let pid = child.id();
     let _ = child.kill();
     let _ = child.wait();
+    let _ = std::fs::remove_dir_all(format!("/dev/shm/rvsim-{}", pid));
     (ops, finished)
 }
 
@@ -477,8 +482,10 @@ fn replay_child(path: &str, bound: Duration) -> Result<Option<String>, String> {
             Ok(Some(_)) => break,
             Ok(None) => {
                 if start.elapsed() > bound {
+                    let pid = child.id();
                     let _ = child.kill();
                     let _ = child.wait();
+                    let _ = std::fs::remove_dir_all(format!("/dev/shm/rvsim-{}", pid));
                     return Ok(Some("hang".into()));
                 }
                 std::thread::sleep(Duration::from_millis(20));
